@@ -214,6 +214,15 @@ def c09(si, G, tmin, I0, model, discrete=False, ties=False):
     sourced = [x for x in tr if x[1] is not None]
     if not ties and ninf != len(sourced):
         bad.append(("count", "%d infections in node histories but %d sourced transmission entries" % (ninf, len(sourced))))
+    # transmission_tree() carries exactly the sourced entries (as a multi-digraph with the times)
+    try:
+        T = si.transmission_tree()
+        got = sorted(((repr(u), repr(v), d.get("time")) for u, v, d in T.edges(data=True)), key=repr)
+        want = sorted(((repr(u), repr(v), t) for (t, u, v) in tr if u is not None), key=repr)
+        if got != want:
+            bad.append(("tree_edges", "transmission_tree() edges %r differ from the sourced transmissions %r" % (got[:6], want[:6])))
+    except Exception as e:
+        bad.append(("tree_exc", "transmission_tree raised %r" % (e,)))
     if model == "SIR":
         indeg = defaultdict(int)
         for (t, u, v) in tr:
